@@ -1353,7 +1353,28 @@ def shadow_time(ctx, env, spec, ev, ept, wit, bsuf):
     rn = float(np.linalg.norm(ept.cart()[:3]))
     cls = "high" if rn > 2.0e7 else "low"
     ctx.count(f"shadow-time:{kind}:{cls}-altitude")
-    ctx.resid(f"shadow-time:{kind}", abs(x), tol, key=f"C10/shadow-time-{kind}", witness=dict(wit(), dt=x, r_norm=rn, g_own_at_event=g0),
+    key = f"C10/shadow-time-{kind}"
+    if kind == "penumbra" and abs(x) > tol:
+        # known finding C10/shadow-time-penumbra only if the event sits on the penumbra cone drawn with the UMBRA half-angle
+        # asin((Rs - Rb)/d) -- the recorded defect -- to 0.05 s; any other penumbra timing error is something new
+        def g_defect(offset_s):
+            from beyond.dates import timedelta as _td
+
+            pt = Pt(env, env.speaker.propagate(ev.date + _td(microseconds=int(round(offset_s * 1e6)))))
+            r_, s_ = np.asarray(pt.cart()[:3], float), np.asarray(pt.sun(), float)
+            ns, nr = float(np.linalg.norm(s_)), float(np.linalg.norm(r_))
+            alpha = math.asin((env.rs - env.re) / ns)
+            zeta = math.acos(max(-1.0, min(1.0, float(-(s_ @ r_)) / (ns * nr))))
+            return nr * math.sin(zeta) - math.tan(alpha) * (env.re / math.sin(alpha) + nr * math.cos(zeta))
+
+        try:
+            a_, b_ = -0.05, 0.05
+            explained = sgn(g_defect(a_)) != sgn(g_defect(b_)) or abs(g_defect(0.0)) < 1e-3
+        except Exception:
+            explained = False
+        if not explained:
+            key = "C10/shadow-time-penumbra-not-explained-by-known-mechanism"
+    ctx.resid(f"shadow-time:{kind}", abs(x), tol, key=key, witness=dict(wit(), dt=x, r_norm=rn, g_own_at_event=g0),
               msg=f"{kind}: reported {ev.event.info!r} at {ev.date} (|r| = {rn / 1e3:.0f} km) is {x:+.4f} s away from the crossing of the "
                   f"{kind} cone of the independent conical-shadow computation (tolerance {tol} s)")
     # direction of the oracle's crossing vs the label
